@@ -2,6 +2,7 @@
    Proved on the model of HttpDemux::select and the speedtest handler (Model/Channels.v). *)
 From Coq Require Import List NArith Bool.
 From TT Require Import Lib.BytesL Model.Channels Generated.ChannelFacts Proofs.ChannelsProofs.
+From TT Require Import Generated.Http1Facts Model.Http1Wire Spec.Rfc9112 Proofs.Http1WireProofs.
 Import ListNotations.
 Open Scope N_scope.
 
@@ -52,6 +53,26 @@ Print Assumptions speedtest_bounds.
 
 (* the tie: shapes of the handlers; the reverse proxy's destination is the configured origin and
    is reached without the client egress policy; no handler consults credentials *)
+(* the request the reverse proxy writes to the configured origin (encode_request on the client's request with
+   x-original-protocol added): for every method and target without blank or line break and every field list as the http crate
+   holds them, the bytes are read back under the RFC 9112 grammar (Spec/Rfc9112.v) as exactly that method, target, version and
+   field list, and the reading ends where the body starts; when the request names an authority (HTTP/3) it is written first, as
+   the Host field *)
+Theorem reverse_proxy_request_head_is_well_formed :
+  (forall method target minor hs rest,
+     (minor < 10)%N -> no_byte 32 method = true -> no_cr method = true -> no_byte 32 target = true -> no_cr target = true ->
+     forallb hdr_ok hs = true ->
+     read_request (S (length hs)) (enc_request method target minor None hs ++ rest) =
+     Some ({| rq_method := method; rq_target := target; rq_minor := minor;
+              rq_headers := map (fun h => (fst h, trim_ows (snd h))) hs |}, rest))
+  /\ (forall method target minor host hs,
+        enc_request method target minor (Some host) hs = enc_request method target minor None (([72; 111; 115; 116]%N, host) :: hs))
+  /\ HTTP1_HEAD_WRITERS_AS_MODELLED = true /\ RP_DESTINATION_IS_CONFIGURED_ORIGIN = true.
+Proof.
+  split; [exact request_round_trip_proof|]. split; [exact request_with_host_proof|]. split; exact eq_refl.
+Qed.
+Print Assumptions reverse_proxy_request_head_is_well_formed.
+
 Theorem code_facts :
   DEMUX_SELECT_AS_MODELLED = true /\ SPEEDTEST_AS_MODELLED = true /\ PING_ANSWERS_200_EOF = true
   /\ RP_DESTINATION_IS_CONFIGURED_ORIGIN = true /\ SERVICE_CHANNELS_DO_NOT_AUTHENTICATE = true.
